@@ -11,6 +11,21 @@ import re
 
 
 PROPS = {
+    "C18": {
+        "coq_targets": ["theories/RT/FilesProofs.vo"],
+        "harness": ["c18"],
+        "disagreement_is_violation": True,
+        "axioms": [],
+        "trusted_base": COMMON_TB + [
+            "modelled, not verified: rusty_basic/src/interpreter/io.rs (FileManager::open / close / close_all, FileInfo get_record / put_record) and the built-ins OPEN, PRINT #, LINE INPUT #, EOF, CLOSE, KILL, FIELD / LSET / PUT / GET as RT/Files.v; the operating system's files are assumed to behave as named byte sequences (the model's maps)",
+            "harness/src/c18.rs: the sequence generator, the translation of operations into BASIC statements with a marker after each, the parsing of the program's output back into results",
+            "NOT modelled: INPUT # field splitting, console INPUT / LINE INPUT, NAME, file names that cannot be created, the bytes of PRINT # beyond whole lines of plain text (PRINT's own layout is C16's)",
+        ],
+        "assumptions": [
+            "a file name is open under at most one handle at a time in the generated sequences",
+            "the error for a closed or wrong-mode handle is 'some file error' (codes 50..76), as the property says; observed and recorded: LSET pads the field buffer with NUL bytes, not blanks (the record itself round-trips)",
+        ],
+    },
     "C09": {
         "coq_targets": ["theories/Lex/LayoutProofs.vo"],
         "harness": ["c09"],
